@@ -6,6 +6,43 @@ use crate::gen::bookgen;
 
 pub struct C02;
 
+/// A running balance driven across the edge of the representable range (about 7.9e28) and back, and
+/// then an assertion that is false by exact arithmetic but true if the balance was clamped at the
+/// edge. Leaving the range is outside every property (okane stops there); what must not happen is
+/// that the run succeeds with that assertion in it.
+fn near_range_case(ctx: &Ctx, idx: u64, rec: &mut Recorder) {
+    use crate::engine::guarded;
+    use crate::rng::Rng;
+    let mut rng = Rng::for_case(ctx.seed, "C02-range", idx);
+    const MAX: u128 = 79_228_162_514_264_337_593_543_950_335;
+    let a: u128 = (40 + rng.below(35) as u128) * 1_000_000_000_000_000_000_000_000_000 + rng.below(1_000_000) as u128;
+    let b: u128 = MAX - a + 1 + rng.below(1_000_000_000) as u128; // a + b > MAX
+    let c: u128 = (10 + rng.below(30) as u128) * 1_000_000_000_000_000_000_000_000_000;
+    let clamped = MAX - c;
+    let com = rng.pick_str(&["JPY", "USD", "EUR"]);
+    let text = format!(
+        "2024/01/01 first\n    Assets:Vault    {a} {com}\n    Equity:Opening\n\n2024/01/02 second\n    Assets:Vault    {b} {com}\n    Equity:Other\n\n2024/01/03 third\n    Assets:Vault    -{c} {com} = {clamped} {com}\n    Equity:Third\n"
+    );
+    rec.op("report::process (balance across the edge of the decimal range)", &text);
+    rec.nontrivial(&text);
+    let files = vec![(crate::ops::ROOT.to_string(), text.clone())];
+    // a panic on leaving the range is excused by `guarded`; any error is fine as well
+    let before = rec.excuse_decimal_overflow;
+    rec.excuse_decimal_overflow = true;
+    let outcome = guarded(rec, || book::run_code(&files, crate::ops::ROOT));
+    rec.excuse_decimal_overflow = before;
+    match outcome {
+        Some(Ok(_)) => rec.violation(
+            "false-assertion-accepted",
+            "balance-clamped-at-the-edge-of-the-decimal-range",
+            &format!("after {a} + {b} - {c} {com} the assertion `= {clamped} {com}` was accepted (exact balance: {})", a + b - c),
+            serde_json::json!({"ledger": text}),
+        ),
+        Some(Err(_)) => rec.count("near-range:rejected"),
+        None => rec.count("near-range:stopped-at-the-edge"),
+    }
+}
+
 impl Check for C02 {
     fn id(&self) -> &'static str {
         "C02"
@@ -14,6 +51,9 @@ impl Check for C02 {
         tier.pick(120_000, 10_000_000)
     }
     fn run(&self, ctx: &Ctx, idx: u64, rec: &mut Recorder) {
+        if idx % 500 == 499 {
+            return near_range_case(ctx, idx, rec);
+        }
         book::run_book_case("C02", bookgen::P_ASSERT, ctx, idx, rec);
     }
     fn rule(&self) -> String {
@@ -25,7 +65,7 @@ impl Check for C02 {
          the model replays postings in file order on exact rationals; a ledger whose assertions are all true must be accepted, \
          otherwise rejected with BalanceAssertionFailure whose `-->` line is the posting's line and whose computed balance and \
          difference equal the model's (compared as sets of terms). Hook events give the number of assertions actually evaluated. A quarter of the cases are written through declared account / commodity aliases and one in six is cut at entry boundaries into a tree of included files on the in-memory file system (diagnostics must then name the posting's own file and line). \
-         Non-trivial = final transaction has a specified outcome; distinct by ledger text."
+         One case in 500 drives a balance across the edge of the decimal range and back and then asserts the value a clamping implementation would hold (the run must not succeed). Non-trivial = final transaction has a specified outcome; distinct by ledger text."
             .to_string()
     }
     fn assumptions(&self) -> Vec<String> {
